@@ -1,6 +1,6 @@
 """C16 - cached unfolding equals doit() whatever the cache directory has seen.
 
-Three engines, all executing the real ``ampform.sympy.perform_cached_doit`` on real
+Four engines, all executing the real ``ampform.sympy.perform_cached_doit`` on real
 temporary directories (nothing is modelled; see vp/c16_worker.py and vp/sched.py):
 
 SEQ    breadth-first exploration, with merging of equal canonical directory states, of
@@ -12,6 +12,9 @@ SCHED  two callers as threads under a baton (every source line of the cache code
 CRASH  a single writer is stopped at every scheduling point, the directory is copied as
        the OS sees it, follow-up calls run on the copy; plus every byte prefix of every
        file the writer produced (torn write / disk full) as a starting directory.
+
+PAIRS  call-only histories [a, b, a] for all ordered pairs of a larger catalogue (adds two
+       Wigner D-functions whose Python hashes are equal because hash(-1) == hash(-2)).
 
 Everything runs three times in worker subprocesses started with PYTHONHASHSEED unset,
 "0" and "1" (the key function switches algorithm on that variable).  The driver below
@@ -38,15 +41,21 @@ RULE = (
     " PhaseSpaceFactorSWave (same str and srepr, different doit), controls"
     " BreakupMomentumSquared(s,m1,m2), BlattWeisskopfSquared(z,2)}; per hash-seed mode"
     " {unset,0,1}: SEQ = all histories of depth <= 3 (4 thorough) over call(e) |"
-    " pre-seed(entry file of e, {empty, torn prefixes, junk, unloadable pickle, [unset:"
-    " pickle of the colliding partner]}) | crash(e, every scheduling point), BFS merging"
-    " equal directory listings, every call(e) judged in every state; SCHED = all"
-    " interleavings of two callers (same / colliding / unrelated pairs; empty / warm / torn"
-    " directory) with <= 1 (2 thorough) preemptions at source-line granularity; CRASH ="
-    " every scheduling point of a single writer + every byte prefix of every file it"
-    " writes, each followed by calls of the same and the colliding expression. A judged"
-    " call is non-trivial when the directory it starts from is non-empty or another"
-    " caller is active; distinct = distinct (mode, engine, state or schedule, expression)"
+    " pre-seed(entry file of e, {empty, first half of the valid pickle, well-formed pickle"
+    " of a missing module, (where keys collide) valid pickle of the colliding partner}) |"
+    " crash(e, every scheduling point), BFS merging"
+    " equal directory listings, every call(e) judged in every state incl. those at the"
+    " depth bound; SCHED = all interleavings of two callers (pairs e1|e1, e3|e3, e1|e2,"
+    " e3|e4, e1|e5, e3|e6 on an empty / warm / torn / (thorough) unloadable-pickle directory) with <= 1 (2 thorough; 2 for"
+    " e1|e1 also in quick) preemptions, every source line of the cache code being a"
+    " scheduling point; CRASH = every scheduling point of a single writer (same start"
+    " directories) followed by [same, colliding, same] and [colliding, same] calls, +"
+    " every byte prefix of every file the writer produces followed by [same, colliding,"
+    " same]; PAIRS = histories [call a, call b, call a] for all ordered pairs of e1..e6 +"
+    " {WignerD(2,-1,0,..), WignerD(2,-2,0,..) (equal Python hash), BlattWeisskopfSquared(z,1)}"
+    ". A judged call is non-trivial when the directory it starts from is non-empty"
+    " or the other caller was preempted/preempting; distinct = distinct (mode, engine,"
+    " canonical state or schedule or crash point or prefix, expression)"
 )
 ASSUMPTIONS = [
     "SEQ merges histories that reach the same directory listing (names + content"
@@ -97,6 +106,27 @@ def build_alphabet():
         #  PhaseSpaceFactor(s, m1, m2) - so e5 doubles as that comparator)
         ("e5", BreakupMomentumSquared(s, m1, m2)),
         ("e6", BlattWeisskopfSquared(z, 2)),
+    ]
+
+
+def build_extras():
+    """x7.. : only used in call-only histories of ordered pairs (engine PAIRS).
+
+    x7/x8 differ in one integer argument, -1 vs -2.  CPython has hash(-1) == hash(-2), and
+    SymPy hashes an expression from the hashes of its arguments, so hash(x7) == hash(x8):
+    with a fixed PYTHONHASHSEED the cache key IS hash(expr).  Both Wigner D-functions
+    occur in every model with a spin-2 resonance.  x9 is a control for e6 (2 -> 1).
+    """
+    import sympy as sp  # noqa: PLC0415
+    from sympy.physics.quantum.spin import Rotation  # noqa: PLC0415
+
+    from ampform.dynamics import BlattWeisskopfSquared  # noqa: PLC0415
+
+    phi, theta, z = sp.symbols("phi theta z")
+    return [
+        ("x7", Rotation.D(2, -1, 0, phi, theta, 0)),
+        ("x8", Rotation.D(2, -2, 0, phi, theta, 0)),
+        ("x9", BlattWeisskopfSquared(z, 1)),
     ]
 
 
@@ -197,7 +227,7 @@ def run(ctx) -> None:
             "caps": res["caps"],
         })
         for sample in res["samples"]:
-            if len(ctx.samples) < 9:
+            if len(ctx.samples) < 12:
                 ctx.samples.append(sample)
         for v in res["violations"]:
             ctx.record({"violations": [v], "evaluations": 0})
